@@ -191,19 +191,27 @@ func Drain(it iterator.Iterator, limit int) []KVPair {
 // to [start,end) (nil = unbounded) and to keys >= from (nil = all). It returns a
 // description of the first discrepancy or "".
 func CheckScan(got []KVPair, m *Model, start, end, from []byte) string {
-	var want []string
-	for _, k := range m.Sorted() {
-		kb := []byte(k)
+	return CheckScanF(got, m, func(kb []byte) bool {
 		if start != nil && bytes.Compare(kb, start) < 0 {
-			continue
+			return false
 		}
 		if end != nil && bytes.Compare(kb, end) >= 0 {
-			continue
+			return false
 		}
 		if from != nil && bytes.Compare(kb, from) < 0 {
-			continue
+			return false
 		}
-		want = append(want, k)
+		return true
+	})
+}
+
+// CheckScanF is CheckScan for an arbitrary membership predicate of the requested set.
+func CheckScanF(got []KVPair, m *Model, in func([]byte) bool) string {
+	var want []string
+	for _, k := range m.Sorted() {
+		if in([]byte(k)) {
+			want = append(want, k)
+		}
 	}
 	var prev []byte
 	var live []KVPair
@@ -212,14 +220,8 @@ func CheckScan(got []KVPair, m *Model, start, end, from []byte) string {
 			return fmt.Sprintf("not strictly ascending at position %d: %s after %s", i, Q(e.K), Q(prev))
 		}
 		prev = e.K
-		if start != nil && bytes.Compare(e.K, start) < 0 {
-			return fmt.Sprintf("key %s below start bound %s", Q(e.K), Q(start))
-		}
-		if end != nil && bytes.Compare(e.K, end) >= 0 {
-			return fmt.Sprintf("key %s at or above end bound %s", Q(e.K), Q(end))
-		}
-		if from != nil && bytes.Compare(e.K, from) < 0 {
-			return fmt.Sprintf("key %s below seek target %s", Q(e.K), Q(from))
+		if !in(e.K) {
+			return fmt.Sprintf("key %s is outside the requested set", Q(e.K))
 		}
 		if e.Tomb {
 			if _, ok := m.M[string(e.K)]; ok {
